@@ -62,6 +62,21 @@ def case_for(seed, stream, idx, tier):
         L = L.number(0)
         R = L.copy().number(1000)
         opts = gen.rand_opts(r, with_ignored=r.random() < 0.3)
+        ign = opts.get("ignored_attrs")
+        if ign and r.random() < 0.7:
+            # C13, first clause: the right document differs from the left one in ignored attributes only
+            for n in R.iter():
+                if n.kind != "e" or r.random() < 0.5:
+                    continue
+                k = r.choice(ign)
+                rest = [(a, v) for a, v in n.attrs if a != k]
+                m = r.random()
+                if m < 0.35:
+                    n.attrs = rest
+                elif m < 0.7:
+                    n.attrs = rest + [(k, r.choice(gen.VALUES))]
+                else:
+                    n.attrs = [(k, r.choice(gen.VALUES))] + rest
     else:
         L, R = gen.rand_pair(r, maxn, simple)
         opts = gen.rand_opts(r)
@@ -242,6 +257,7 @@ def run_cases(seed, lo, hi, extra):
             rd = real.RealDiff(L, R, opts)
             c["rd"] = rd
             sim = rd.sim_table()
+            c["sim"] = sim
             c["match"] = rd.match()
             c["script"] = rd.script()
             c["final"] = rd.final_left()
@@ -353,6 +369,12 @@ def run_cases(seed, lo, hi, extra):
             st.failures.append({"prop": "C03", "sig": "C03/different-documents-empty-script", **desc})
         if eq:
             st.count("equal_pairs")
+            # ---- U2eq: the oracle hypotheses of C03_equal_documents_empty_script against the real node_ratio
+            st.units["U2eq"] = st.units.get("U2eq", 0) + 1
+            F = opts.get("F", 0.5)
+            if 0 < F <= 1.0:
+                for prob in c["rd"].eq_assumptions(c["sim"]):
+                    st.disagreements.append({"unit": "U2eq", "real": prob, "model": "hypothesis of C03_equal_documents_empty_script", **desc})
         # C13 never named
         if ign and ignored_named(script, set(ign)):
             st.failures.append({"prop": "C13", "sig": "C13/action-names-ignored-attribute", **desc})
